@@ -17,6 +17,18 @@ CHECKS = {
          "numpy einsum/LAPACK; frame taken from the implementation after independent validation", "exhaustive enumeration over a basis of the 21-dim tensor space x all keys", "6 C03"),
  "C04": ("explicit-state exploration of request histories on the real task list: all ordered requests of length <=2 (<=3 thorough), complements, 22 (+210) orders of the full set, all 6 axis relabellings, 5 strain fields; thorough: all 2^15 shear subsets with/without non-shear keys; per-key values compared across all histories before merging, against sam_ref, isotropy, dependency order",
          "duck-typed calculator; sam_ref reference recursion; 21! orders not enumerated (cone-independence premise checked per execution)", "history BFS (operation sequences) on the implementation with differential + reference oracles", "6 C04"),
+ "C05": ("bounded-exhaustive exploration of the real Calculator on generated input directories: BFS over the deviation lattice of 9 data-set/configuration alphabets (<=2 deviations quick, <=3 thorough), every run compared key by key with an independent pipeline (own parsers, own V*c fit in Eulerian strain, own strain rule, own qha instance whose arrays must match bit for bit, sam_ref); level<=1 configurations re-run with the static table scaled (phonon part independent of static values)",
+         "qha trusted as a library; spectra polynomial in ln V so the interpolant is exact; finite-difference pieces accepted within twice the reference's own analytic-vs-grid difference", "deviation-bounded exhaustive enumeration of configurations on the implementation, oracle = independent reference pipeline", "6 C05"),
+ "C06": ("complete product of 3 data sets x 3 temperature grids x 4 inside pressure grids: every modulus/compliance/average/velocity/volume at every (T,P) node against an independent spline along the isotherm, pressure round trip, exact conversion of cubic-in-P fields, attribute spellings select the right tensor; 51 overshooting grids (>=2x reach, and between the coldest and hottest isotherm's reach) must be rejected",
+         "qha's P(T,V), V(T,P) trusted; tolerance 25% of the local cell variation", "exhaustive enumeration of grid configurations x all quantities x all grid nodes on the implementation", "6 C06"),
+ "C16": ("small-scope complete merge exploration: all 144^2 (user, default) dictionary pairs over {a,b}x{1,2} depth<=2 (21609x144 thorough) against a leaf-path reference, input snapshots, idempotence; every leaf subset of the shipped settings against the packaged defaults; 395 single-field perturbations of every documented field x 4 base files with verdicts transcribed from the statement/docs; YAML/JSON spellings; operation sequences (<=3) for module-state isolation",
+         "verdict table transcribed by hand from the property statement and docs (not from the schema); cases the statement leaves open are executed but not asserted", "small-scope exhaustive enumeration of nested dictionaries and single-field perturbations + history BFS", "6 C16"),
+ "C17": ("complete product of 27 phonon-file shapes x 4 value families x count variants through write_energy/read_energy with an independent parser; 1296 static-table layouts through read_elast_data; cij fill command round trip for 9 systems x number styles x presentations (1 deviation quick / full product thorough) incl. fill applied to its own output (depth 2); shipped files",
+         "io_ref parsers/writers; per-system dependent components hard-coded from Nye", "exhaustive enumeration of file shapes/layouts on the implementation + depth-2 command chains, oracle = independent parser", "6 C17"),
+ "C19": ("extract: every request position class (nodes, both sides of midpoints, outside) x variable counts x -T/-P x header options on asymmetric non-square tables (every node and midpoint side along whole axes in thorough); file selection among all 51 documented names; extract-geotherm: 3 path kinds x 1/3/50 points x column layouts on bicubic (exact) and smooth (refinement ladder 21/41/81 with spline bound) tables",
+         "tables_ref writer byte-identical to qha's save_x_tp (selftest); spline error bound from the analytic derivatives", "exhaustive enumeration of request positions/layouts through the real CLI, oracle = analytic table functions", "6 C19"),
+ "C20": ("evec_sort: all n! permutations x all 4^n phase vectors x 5 unitary bases x 7 perturbation kinds x 3 containers for n=2..4 (n=5 thorough), cyclic shifts and transpositions for n=12, 60; arbitrary orthonormal pairs incl. exact-zero overlaps for the 'always a permutation' clause; all 242 off-by-one dimension mismatches; disp2eig over bases x masses x scalings x shapes; evec_load over n_q x n_p with a distinct number in every slot",
+         "deterministic unitary bases and perturbations (no randomness); matdyn writer byte-identical to the shipped test files (selftest)", "exhaustive enumeration of permutations x phase vectors (bounded n) on the implementation", "6 C20"),
  "C10": ("complete enumeration of the finite domain (81 tuples, 36 Voigt pairs, all spellings, 81x81 equality pairs, out-of-range neighbours) with the orbit graph explored by BFS; decides the property outright because the domain is finite",
          "reference orbits from voigt_ref (union of generator images); CPython hashing", "exhaustive enumeration of the finite index domain + BFS of the orbit graph against a reference quotient", "6 C10"),
 }
